@@ -14,6 +14,6 @@ def run(tier):
     return gokernel.run_kernels('C16', [kernel()], tier, write=False,
                                 title='removeWhitespace keeps the token sequence and string contents; newVariable under -m never collides, never yields a reserved word, keeps local and package-level alphabets apart',
                                 bounds={'removeWhitespace': 'every well-formed input of <= %d bytes over an 11-character alphabet with one or two representatives of each lexical class the scanner distinguishes (identifier, digit, -, =, ;, space, newline, string delimiter, backslash, /, *), and of <= %d bytes over the 6 characters that drive the string and comment scanners' % ((4, 5) if tier == 'quick' else (5, 7)),
-                                        'newVariable': 'every sequence of <= 6 allocations with symbolic package-level flags over three nested scopes; 760 allocations in one scope (past all one- and two-letter names)',
+                                        'newVariable': 'every history of <= %d operations (allocate local / allocate package-level / enter nested function / leave) over a stack of <= 3 contexts; 760 allocations in one scope (past all one- and two-letter names)' % (6 if tier == 'quick' else 7),
                                         'precondition': 'white space never separates two punctuators that would merge, except "- -" (unary plus is never emitted); trailing white space follows a statement end'},
                                 harness_re='^VHarness_' if tier == 'quick' else '^VHarness')
